@@ -157,10 +157,11 @@ def _run_anti(ctx, spec, rng):
     n = len(sts)
     rhos = [np.outer(s, s.conj()) for s in sts]
     field = "complex" if cplx and r >= 6 else "real"
-    inp = [s.reshape(-1, 1).copy() for s in sts] if r % 2 else [s.copy() for s in sts]
-    e = dict(d=d, n=n, cplx=field == "complex", form="col" if r % 2 else "vec1d", rhos=rhos, inp=inp, vecs=sts, p=np.full(n, 1.0 / n), pk=0)
+    form = ["vec1d", "col", "dm"][(r // 6 + r) % 3]
+    inp = [s.reshape(-1, 1).copy() for s in sts] if form == "col" else ([s.copy() for s in sts] if form == "vec1d" else [x.copy() for x in rhos])
+    e = dict(d=d, n=n, cplx=field == "complex", form=form, rhos=rhos, inp=inp, vecs=sts, p=np.full(n, 1.0 / n), pk=0)
     v = check_exclusion(ctx, e, "dual")
-    sig = (name, field)
+    sig = (name, field, form)
     if v is not None:
         if expected:
             ctx.check("O3:antidistinguishable=>0", abs(v) <= TOLP * 10, dev=abs(v), tol=TOLP * 10, sig=sig, nt=True, mech="state_exclusion:nonzero-on-antidistinguishable-set", detail={"set": name, "value": v})
@@ -186,6 +187,10 @@ def _run_anti(ctx, spec, rng):
         m = int(rng.integers(2, 4))
         vecs = [gen.unit(rng, dd, bool(r % 2)) for _ in range(m)]
         rh = [np.outer(x, x.conj()) for x in vecs]
+        if (r // 3) % 2:  # density-matrix inputs: the same pure states as matrices, or slightly mixed ones
+            lam = 0.0 if (r // 6) % 2 else 0.1
+            rh = [(1 - lam) * x + lam * np.eye(dd) / dd for x in rh]
+            vecs = [x.copy() for x in rh]
         res = _solve(ctx, state_exclusion, [x.copy() for x in vecs], [1.0 / m] * m)
         if res is not None:
             ms = [arr(x) for x in res[1]]
@@ -194,7 +199,7 @@ def _run_anti(ctx, spec, rng):
                 ctx.evals["solver-call"] += 1
                 ans = ctx.call(is_antidistinguishable, [x.copy() for x in vecs], solver=True)
                 if ans is not FAILED:
-                    ctx.check("O3:positive=>not-antidistinguishable", bool(ans) is False, sig=("random", dd, m), nt=True, mech="is_antidistinguishable:accepts-set-with-positive-exclusion-value",
+                    ctx.check("O3:positive=>not-antidistinguishable", bool(ans) is False, sig=("random", dd, m, np.ndim(vecs[0])), nt=True, mech="is_antidistinguishable:accepts-set-with-positive-exclusion-value",
                               detail={"certified_lower": lo})
 
 
